@@ -378,4 +378,43 @@ theorem iter_succ_map {α : Type} (f : α → α) (n : Nat) (o : Option α) :
 
 end Programs
 
+/-! ### arbitrary private task programs -/
+
+section Generic
+variable {σ : Type}
+
+theorem iter_succ' {α : Type} (f : α → α) (m : Nat) (a : α) : iter f (m + 1) a = f (iter f m a) := by
+  induction m generalizing a with
+  | zero => rfl
+  | succ m ih =>
+    show iter f (m + 1) (f a) = f (iter f m (f a))
+    exact ih (f a)
+
+theorem iter_quiescent {α : Type} (f : α → α) (n extra : Nat) (t : α)
+    (h : f (iter f n t) = iter f n t) : iter f (n + extra) t = iter f n t := by
+  rw [iter_add]
+  exact iter_fixed f extra _ h
+
+theorem runAny_cons (step : Nat → σ → σ) (a : Nat) (rest : List Nat) (s : List σ) :
+    runAny step (a :: rest) s = runAny step rest (stepAt step a s) := rfl
+
+theorem stepAt_length (step : Nat → σ → σ) (a : Nat) (s : List σ) : (stepAt step a s).length = s.length := by
+  simp [stepAt, List.length_modify]
+
+theorem stepAt_getElem? (step : Nat → σ → σ) (a i : Nat) (s : List σ) :
+    (stepAt step a s)[i]? = if a = i then (s[i]?).map (step i) else s[i]? := by
+  unfold stepAt
+  rw [List.getElem?_modify]
+  by_cases h : a = i
+  · subst h; simp
+  · simp [h]
+
+theorem runEachAlone_getElem? (step : Nat → σ → σ) (n : Nat → Nat) (s : List σ) (i : Nat) :
+    (runEachAlone step n s)[i]? = (s[i]?).map (iter (step i) (n i)) := by
+  unfold runEachAlone
+  rw [List.getElem?_map, List.getElem?_zipIdx]
+  cases s[i]? <;> simp
+
+end Generic
+
 end PysparklingVerif.Sched
